@@ -282,6 +282,17 @@ where
             fs.forget(&root, ino(s, a[1]), num(a[2]));
             "errno=0".to_string()
         }
+        "batch_forget" => {
+            // batch_forget I count [I count ...]
+            let mut v = vec![];
+            let mut k = 1;
+            while k + 1 < a.len() {
+                v.push((ino(s, a[k]), num(a[k + 1])));
+                k += 2;
+            }
+            fs.batch_forget(&root, v);
+            "errno=0".to_string()
+        }
         "getattr" => {
             let h = if a[2] == "-" { None } else { Some(hnd(s, a[2])) };
             match fs.getattr(&root, ino(s, a[1]), h) {
@@ -591,7 +602,7 @@ impl Shadow {
                 let d = self.fd(a[1]);
                 self.lookup_fd(d, &n, a[1] == "0")
             }
-            "forget" => ok(),
+            "forget" | "batch_forget" => ok(),
             "getattr" => {
                 let fd = if a[2] != "-" && !self.no_open { self.h(a[2], a[1]) } else { self.fd(a[1]) };
                 if fd < 0 {
@@ -946,7 +957,8 @@ impl Shadow {
                     let want = if a[0] == "read" { num(a[5]) as u32 } else { num(a[5]) as u32 };
                     let cur = if tmp { (if a[0] == "read" { libc::O_RDONLY } else { libc::O_RDWR }) as u32 } else { let i: usize = a[2].parse().unwrap(); self.hflags[i] };
                     if cur != want {
-                        let r = unsafe { libc::fcntl(fd, libc::F_SETFL, want) };
+                        // reference: under writeback the descriptor never carries O_APPEND (the client kernel owns it), exactly as at open
+                        let r = unsafe { libc::fcntl(fd, libc::F_SETFL, self.wb_flags(want as i32)) };
                         if r != 0 {
                             let c = last();
                             if tmp { unsafe { libc::close(fd) }; }
